@@ -303,7 +303,7 @@ def run(tier: str, seed: int) -> int:
     # ---- clamping is an affine map of the draw onto [lo, hi] whatever the magnitude of the draw: wrapped generators scaled over twenty decades
     for gname, D, mk in (("RandomTruncatedFourierSeries", 1, lambda: ex.ic.RandomTruncatedFourierSeries(1, cutoff=3)),
                          ("GaussianRandomField", 2, lambda: ex.ic.GaussianRandomField(2))):
-        for sc in (1.0, 1e-9, -1e-12, 1e8, -2.5e-7):
+        for sc in (1.0, 1e-9, -1e-12, 1e8, -2.5e-7, 1e-18, -3e-21, 1e-30):
             N = 12
             key = jax.random.PRNGKey(int(rng.integers(0, 2 ** 31)))
             raw = np.asarray(mk()(N, key=key), dtype=np.float64)
